@@ -20,7 +20,7 @@ import numpy as np
 from . import core
 
 KIND = {"ninf": -np.inf, "zero": 0.0, "m1": -1.0, "inf": np.inf, "one": 1.0}
-IMAGES = ["clean", "noisy", "fixedpoint", "neighbour", "wall"]     # env.support and not env.flat
+IMAGES = ["clean", "noisy", "fixedpoint", "neighbour", "wall", "nanstrip"]     # env.support and not env.flat
 # width of the candidate in CELLS that realises the spec's w2 = floor(2 w / h) (the fit region grows by 1 + w2 cells,
 # whatever the physical size h of a cell: F23)
 WIDTH_CELLS_OF_W2 = {0: 0.3, 1: 0.75, 2: 1.0, 3: 1.6, 4: 2.0}
@@ -121,15 +121,22 @@ def scenario(rec, variant, image):
             tp[a] = np.floor((tp[a] - lo[min(a, len(lo) - 1)]) / h) * h + lo[min(a, len(lo) - 1)] if n.startswith("cart") else tp[a]
         cand = mk(cls, tp, 0.05 * h, cw, np.zeros(modes))
     levels = (0.0, 1.0) if req["levels"] in ("fixed", "adjust") else (2.0, 5.0)
+    if image in ("neighbour", "nanstrip") or (image == "noisy" and variant == 1):
+        levels = (0.0, 200.0) if req["levels"] in ("fixed", "adjust") else (40.0, 240.0)   # 8-bit-like intensities
     flat = bool(rec.get("env", {}).get("flat", False))
     with warnings.catch_warnings():
         warnings.simplefilter("ignore")
         field = src.get_phase_field(grid, vmin=levels[0], vmax=levels[1])
         if image == "noisy":
             field.data += 0.03 * (levels[1] - levels[0]) * rng.standard_normal(field.data.shape)
-        if image == "neighbour" and n.startswith("cart") and dim == 2:
+        if image in ("neighbour", "nanstrip") and n.startswith("cart") and dim == 2:
             other = D.DiffuseDroplet(pos + np.array([0.0, 2.2 * R]), 0.8 * R, w)
             field.data += other.get_phase_field(grid, vmin=0, vmax=levels[1] - levels[0]).data
+        if image == "nanstrip":
+            # invalid pixels (masked detector rows) far away from the droplet: none of the caller's pixels may change
+            far = 0 if pos[0] > (lo[0] + hi[0]) / 2 else -1
+            if 0 not in fam["periodic"] and 1 not in fam["periodic"]:
+                field.data[far, :] = np.nan
     if flat:
         # a homogeneous region: constant image; supplied levels coincide (intensity range zero)
         field.data[...] = 3.0
@@ -161,6 +168,7 @@ class Proxy:
             seen.append((np.array(x, float), float(np.sum(np.asarray(r) ** 2)), int(np.asarray(r).size)))
             return r
 
+        self.kwargs = dict(kw)
         res = self.real.least_squares(watched, x0, bounds=bounds, **kw)
         first = seen[0]   # the start vector (moved into the interior by the solver if it sits on a bound, e.g. width 0)
         c1 = float(np.sum(np.asarray(res.fun) ** 2))
@@ -222,6 +230,8 @@ def run_case(rec, variant, image):
                 fails.append("lower bounds handed to the solver differ from the spec's layout")
             if [KIND[k] for k in rec["upper"]] != list(np.broadcast_to(c["hi"], c["x0"].shape)[:nfree]):
                 fails.append("upper bounds handed to the solver differ from the spec's layout")
+        if getattr(proxy, "kwargs", {}).get("loss", "linear") != "linear":
+            fails.append(f"the solver is asked to minimise the loss {proxy.kwargs.get('loss')!r}, not the squared deviation")
         if not (c["c1"] <= c["c0"] * (1 + 1e-12) + 1e-300):
             fails.append(f"residual of the handed-over objective grew: {c['c0']!r} -> {c['c1']!r}")
         if np.any(c["x"] < np.broadcast_to(c["lo"], c["x"].shape) - 1e-12) or np.any(c["x"] > np.broadcast_to(c["hi"], c["x"].shape) + 1e-12):
@@ -365,7 +375,7 @@ def run(out: core.Outcome) -> None:
             images = IMAGES
         for v in variants:
             for image in images:
-                if image == "neighbour" and not (rec["req"]["fam"]["name"].startswith("cart2")):
+                if image in ("neighbour", "nanstrip") and not (rec["req"]["fam"]["name"].startswith("cart2")):
                     continue
                 cases.append((idx, rec, v, image))
     # heavy 3-D cases first
